@@ -1,0 +1,41 @@
+#ifndef LIBTORRENT_UTILS_VERIF_HOOKS_H
+#define LIBTORRENT_UTILS_VERIF_HOOKS_H
+
+// Verification-only schedule points. Without LT_VERIF the macros expand to nothing. With
+// LT_VERIF and no controller installed (sched_hook == nullptr) a schedule point is one relaxed
+// load and a not-taken branch: behaviour is unchanged.
+
+#ifdef LT_VERIF
+
+#include <atomic>
+#include <cstdint>
+
+namespace torrent::verif {
+
+// label: name of the shared-memory operation that follows; wait_addr/wait_old: for a schedule
+// point placed before atomic<uint32_t>::wait(wait_old) on *wait_addr, otherwise nullptr/0.
+using sched_fn = void (*)(const char* label, const void* wait_addr, uint32_t wait_old);
+
+inline std::atomic<sched_fn> sched_hook{nullptr};
+
+inline void
+sched_point(const char* label, const void* wait_addr = nullptr, uint32_t wait_old = 0) {
+  auto fn = sched_hook.load(std::memory_order_acquire);
+
+  if (fn != nullptr)
+    fn(label, wait_addr, wait_old);
+}
+
+} // namespace torrent::verif
+
+#define LT_VERIF_SCHED(label)                 ::torrent::verif::sched_point(label)
+#define LT_VERIF_SCHED_WAIT(label, addr, old) ::torrent::verif::sched_point(label, addr, old)
+
+#else
+
+#define LT_VERIF_SCHED(label)                 do {} while (0)
+#define LT_VERIF_SCHED_WAIT(label, addr, old) do {} while (0)
+
+#endif
+
+#endif
